@@ -284,22 +284,22 @@ static int mode_fmg(int cases)
     return 0;
 }
 
-// independent residual of the returned solution from the problem data (level right-hand sides) with freshly built operators
-static double independent_residual_norm(GMGPolar& g, GMGPolarVerif& v, int extrap, int norm_type)
+// independent residual of the returned solution from the problem data with freshly built operators; the level right-hand sides
+// are the copies taken right after setup(), so nothing solve() does to the level vectors can leak into this oracle
+static double independent_residual_norm(GMGPolar& g, GMGPolarVerif& v, int extrap, int norm_type, const Vector<double>& rhs0, const Vector<double>& rhs1)
 {
-    Level& l0 = v.level(0);
     const PolarGrid& grid = g.grid();
     LevelCache cache(grid, v.coef(), v.geo(), true, true);
     ResidualTake R0(grid, cache, v.geo(), v.coef(), g.DirBC_Interior(), 1);
     Vector<double> r(grid.numberOfNodes());
-    R0.computeResidual(r, l0.rhs(), g.solution());
+    R0.computeResidual(r, rhs0, g.solution());
     if (extrap != 0) {
         PolarGrid cg = coarseningGrid(grid);
         LevelCache ccache(cg, v.coef(), v.geo(), true, true);
         ResidualTake R1(cg, ccache, v.geo(), v.coef(), g.DirBC_Interior(), 1);
         Vector<double> uc(cg.numberOfNodes()), rc(cg.numberOfNodes());
         for (int i = 0; i < cg.nr(); i++) for (int j = 0; j < cg.ntheta(); j++) uc[cg.index(i, j)] = g.solution()[grid.index(2 * i, 2 * j)];
-        R1.computeResidual(rc, v.level(1).rhs(), uc);
+        R1.computeResidual(rc, rhs1, uc);
         for (int i = 0; i < grid.nr(); i++) for (int j = 0; j < grid.ntheta(); j++) {
             int idx = grid.index(i, j);
             if ((i & 1) || (j & 1)) r[idx] *= 4.0 / 3.0;
@@ -354,18 +354,19 @@ static int mode_solve(int cases, int nr_exp)
         o.apply(g);
         g.setup();
         GMGPolarVerif v(g);
+        const Vector<double> rhs0 = v.level(0).rhs(), rhs1 = v.levels() > 1 ? v.level(1).rhs() : Vector<double>(0);
         trace_on();
         g.solve();
         trace_off();
         int extrap = atoi(o.kv["extrapolation"].c_str());
-        double indep = independent_residual_norm(g, v, extrap, atoi(o.kv["residualNormType"].c_str()));
+        double indep = independent_residual_norm(g, v, extrap, atoi(o.kv["residualNormType"].c_str()), rhs0, rhs1);
         double finite = 1;
         for (int i = 0; i < g.solution().size(); i++) if (!std::isfinite(g.solution()[i])) finite = 0;
-        printf("SOL case=%d L=%d extrap=%d kind=%s fmg=%s fmg_it=%s fmg_cycle=%s nu1=%s nu2=%s maxit=%s abstol=%s reltol=%s norm=%s it=%d rho=%s indep=%s finite=%d nnorms=%zu opts=[%s] trace=%s\n", c,
+        printf("SOL case=%d L=%d extrap=%d kind=%s fmg=%s fmg_it=%s fmg_cycle=%s nu1=%s nu2=%s maxit=%s abstol=%s reltol=%s norm=%s it=%d rho=%s indep=%s n0=%s finite=%d nnorms=%zu opts=[%s] trace=%s\n", c,
                v.levels(), extrap, o.kv["multigridCycle"].c_str(), o.kv["FMG"].c_str(), o.kv["FMG_iterations"].c_str(), o.kv["FMG_cycle"].c_str(), o.kv["preSmoothingSteps"].c_str(),
                o.kv["postSmoothingSteps"].c_str(), o.kv["maxIterations"].c_str(), hex(atof(o.kv["absoluteTolerance"].c_str())).c_str(), hex(atof(o.kv["relativeTolerance"].c_str())).c_str(),
-               o.kv["residualNormType"].c_str(), g.numberOfIterations(), hex(g.meanResidualReductionFactor()).c_str(), hex(indep).c_str(), (int)finite, v.norms().size(), o.str().c_str(),
-               render_trace(v).c_str());
+               o.kv["residualNormType"].c_str(), g.numberOfIterations(), hex(g.meanResidualReductionFactor()).c_str(), hex(indep).c_str(), v.norms().empty() ? "-" : hex(v.norms().front()).c_str(), (int)finite, v.norms().size(),
+               o.str().c_str(), render_trace(v).c_str());
     }
     printf("end\n");
     return 0;
